@@ -95,6 +95,9 @@ def nth(seq, i):
     items = unit_items(seq)
     if items is not None and z3.is_int_value(i) and 0 <= i.as_long() < len(items):
         return items[i.as_long()]
+    if z3.is_app(seq) and seq.decl().kind() == z3.Z3_OP_SEQ_EXTRACT:
+        # element i of an in-bounds slice b[off:off+ln] is element off+i of b (accesses are created in range)
+        return nth(seq.arg(0), simp(seq.arg(1) + i))
     return AT(seq, i)
 
 
